@@ -241,14 +241,22 @@ func UnmarshalAttribute(attr *api.Attribute) (bgp.PathAttributeInterface, error)
 				if err != nil {
 					return nil, fmt.Errorf("invalid ipv6 address: %s", v.Address)
 				}
-				community, _ = bgp.NewIPv6AddressSpecificExtended(bgp.ExtendedCommunityAttrSubType(v.SubType), addr, uint16(v.LocalAdmin), v.IsTransitive)
+				ec, err := bgp.NewIPv6AddressSpecificExtended(bgp.ExtendedCommunityAttrSubType(v.SubType), addr, uint16(v.LocalAdmin), v.IsTransitive)
+				if err != nil {
+					return nil, fmt.Errorf("invalid ipv6 address: %s", v.Address)
+				}
+				community = ec
 			case *api.IP6ExtendedCommunitiesAttribute_Community_RedirectIpv6AddressSpecific:
 				v := an.GetRedirectIpv6AddressSpecific()
 				addr, err := netip.ParseAddr(v.Address)
 				if err != nil {
 					return nil, fmt.Errorf("invalid ipv6 address: %s", v.Address)
 				}
-				community, _ = bgp.NewRedirectIPv6AddressSpecificExtended(addr, uint16(v.LocalAdmin))
+				ec, err := bgp.NewRedirectIPv6AddressSpecificExtended(addr, uint16(v.LocalAdmin))
+				if err != nil {
+					return nil, fmt.Errorf("invalid ipv6 address: %s", v.Address)
+				}
+				community = ec
 			}
 			if community == nil {
 				return nil, fmt.Errorf("invalid ipv6 extended community: %T", an.GetExtcom())
@@ -2588,7 +2596,11 @@ func unmarshalExComm(a *api.ExtendedCommunitiesAttribute) (*bgp.PathAttributeExt
 			if err != nil {
 				return nil, fmt.Errorf("invalid address: %s", v.Address)
 			}
-			community, _ = bgp.NewIPv4AddressSpecificExtended(bgp.ExtendedCommunityAttrSubType(v.SubType), addr, uint16(v.LocalAdmin), v.IsTransitive)
+			ec, err := bgp.NewIPv4AddressSpecificExtended(bgp.ExtendedCommunityAttrSubType(v.SubType), addr, uint16(v.LocalAdmin), v.IsTransitive)
+			if err != nil {
+				return nil, fmt.Errorf("invalid address: %s", v.Address)
+			}
+			community = ec
 		case *api.ExtendedCommunity_FourOctetAsSpecific:
 			v := comm.FourOctetAsSpecific
 			community = bgp.NewFourOctetAsSpecificExtended(bgp.ExtendedCommunityAttrSubType(v.SubType), v.Asn, uint16(v.LocalAdmin), v.IsTransitive)
@@ -2614,13 +2626,23 @@ func unmarshalExComm(a *api.ExtendedCommunitiesAttribute) (*bgp.PathAttributeExt
 			community = bgp.NewESILabelExtended(v.Label, v.IsSingleActive)
 		case *api.ExtendedCommunity_EsImport:
 			v := comm.EsImport
-			community = bgp.NewESImportRouteTarget(v.EsImport)
+			// a typed nil pointer must not reach the interface value: it would
+			// pass the nil check below and panic on the first use
+			ec := bgp.NewESImportRouteTarget(v.EsImport)
+			if ec == nil || len(ec.ESImport) != 6 {
+				return nil, fmt.Errorf("invalid es-import mac address: %s", v.EsImport)
+			}
+			community = ec
 		case *api.ExtendedCommunity_MacMobility:
 			v := comm.MacMobility
 			community = bgp.NewMacMobilityExtended(v.SequenceNum, v.IsSticky)
 		case *api.ExtendedCommunity_RouterMac:
 			v := comm.RouterMac
-			community = bgp.NewRoutersMacExtended(v.Mac)
+			ec := bgp.NewRoutersMacExtended(v.Mac)
+			if ec == nil || len(ec.Mac) != 6 {
+				return nil, fmt.Errorf("invalid router's mac address: %s", v.Mac)
+			}
+			community = ec
 		case *api.ExtendedCommunity_TrafficRate:
 			v := comm.TrafficRate
 			community = bgp.NewTrafficRateExtended(uint16(v.Asn), v.Rate)
@@ -2636,7 +2658,11 @@ func unmarshalExComm(a *api.ExtendedCommunitiesAttribute) (*bgp.PathAttributeExt
 			if err != nil {
 				return nil, fmt.Errorf("invalid address: %s", v.Address)
 			}
-			community, _ = bgp.NewRedirectIPv4AddressSpecificExtended(addr, uint16(v.LocalAdmin))
+			ec, err := bgp.NewRedirectIPv4AddressSpecificExtended(addr, uint16(v.LocalAdmin))
+			if err != nil {
+				return nil, fmt.Errorf("invalid address: %s", v.Address)
+			}
+			community = ec
 		case *api.ExtendedCommunity_RedirectFourOctetAsSpecific:
 			v := comm.RedirectFourOctetAsSpecific
 			community = bgp.NewRedirectFourOctetAsSpecificExtended(v.Asn, uint16(v.LocalAdmin))
